@@ -3,6 +3,7 @@ package mon
 import (
 	"bytes"
 	"fmt"
+	"math/rand"
 	"reflect"
 	"regexp"
 	"sort"
@@ -50,6 +51,66 @@ func c15Case(c *core.Case) {
 	isJSON := gen.Chance(r, 0.3)
 	seed := pickSeed(c, isJSON)
 	src := seed
+	if c.Index%8 == 5 {
+		// one token of a template sequence replaced by another token, in every
+		// kind of host (quoted, heredoc, bare template, JSON string)
+		seed = nil
+		src = c15DamagedSequence(r, &isJSON)
+		c.Count("mutation:one-token-of-a-template-sequence")
+	} else {
+		c15Mutate(c, &src, seed)
+	}
+	c15CaseTail(c, src, seed, isJSON)
+}
+
+var c15Sequences = [][]string{
+	{"%{", "for", "k", ",", "v", "in", "x", "}", "y", "${", "v", "}", "%{", "endfor", "}"},
+	{"%{", "for", "v", "in", "x", "~}", "y", "%{~", "endfor", "}"},
+	{"%{", "if", "c", "}", "a", "%{", "else", "}", "b", "%{", "endif", "}"},
+	{"%{", "if", "c", "==", "1", "}", "${", "x", ".", "y", "[", "0", "]", "}", "%{", "endif", "}"},
+	{"${", "f", "(", "a", ",", "b", "...", ")", "}"},
+	{"${", "[", "for", "k", ",", "v", "in", "x", ":", "k", "=>", "v", "if", "v", "]", "}"},
+	{"${", "c", "?", "{", "a", "=", "1", "}", ":", "x", "[*]", ".", "y", "}"},
+	{"${~", "<<EOT\nin\nEOT\n", "~}"},
+}
+
+var c15Replacements = []string{"", "1", ",", "\"s\"", "${v}", "}", "in", "~", "%{", "${", "endfor", "else", ":", "=>", "...", "(", ")", "[", "\n", "é", "$", "%", "\\"}
+
+// c15DamagedSequence writes one template sequence with exactly one of its
+// tokens replaced (or removed, or doubled) and places it in a host.
+func c15DamagedSequence(r *rand.Rand, isJSON *bool) []byte {
+	toks := append([]string(nil), gen.Pick(r, c15Sequences)...)
+	i := r.Intn(len(toks))
+	switch r.Intn(8) {
+	case 0:
+		toks = append(toks[:i+1], toks[i:]...) // doubled
+	default:
+		toks[i] = gen.Pick(r, c15Replacements)
+	}
+	seq := strings.Join(toks, " ")
+	if gen.Chance(r, 0.4) {
+		seq = strings.Join(toks, "")
+	}
+	*isJSON = false
+	switch r.Intn(6) {
+	case 0:
+		return []byte("a = \"" + seq + "\"\n")
+	case 1:
+		return []byte("a = <<EOT\n" + seq + "\nEOT\n")
+	case 2:
+		return []byte("a = <<-EOT\n  " + seq + "\n  EOT\nb = 1\n")
+	case 3:
+		return []byte("blk \"l\" {\n  a = [\"pre" + seq + "post\", 2]\n}\n")
+	case 4:
+		*isJSON = true
+		return []byte("{\"a\": " + string(gen.JSONQuote(nil, seq)) + ", \"b\": [" + string(gen.JSONQuote(nil, "x"+seq)) + "]}")
+	}
+	return []byte(seq) // (a bare template for the template entry point; a broken file for the others)
+}
+
+func c15Mutate(c *core.Case, srcp *[]byte, seed []byte) {
+	r := c.Rng
+	src := seed
 	switch k := r.Intn(10); {
 	case k < 2:
 		// exactly one punctuation character written as another
@@ -62,6 +123,10 @@ func c15Case(c *core.Case) {
 	case k < 8:
 		src = gen.Mutate(r, seed, 6)
 	}
+	*srcp = src
+}
+
+func c15CaseTail(c *core.Case, src, seed []byte, isJSON bool) {
 	if hugeExp.Match(src) {
 		// a numeric literal with a huge exponent parses instantly, but converting
 		// it to a string at evaluation legitimately produces millions of digits
